@@ -413,6 +413,72 @@ fn use_together<V: ValF, const J: usize>(got: [Option<&mut V>; J]) {
     }
 }
 
+/// Keys with a SMALL value space and a lying `==`: a one-byte key that is never equal to anything (not even to
+/// itself) in a map with a slot for each of its 256 bit patterns or more, and a zero-sized key with a sized
+/// value in a map of any capacity.  "All keys are distinct, so it cannot overflow" does not hold here: filling
+/// the container and offering more must still end in a panic (or be refused) with nothing written outside.
+#[derive(Clone, Copy, Debug)]
+pub struct NeverEq(pub u8);
+impl PartialEq for NeverEq {
+    fn eq(&self, _: &Self) -> bool {
+        false
+    }
+}
+impl Eq for NeverEq {}
+pub fn overfill<K: Eq + 'static, const N: usize>(l: &mut Liar, kname: &str, mk: &dyn Fn(u32) -> K) {
+    ledger::set_ctx(N as u64, 0, "overfill(small key space)");
+    let mut m: Box<Frame<Map<K, u32, N>>> = Frame::boxed(Map::new());
+    let mut s: Box<Frame<Set<K, N>>> = Frame::boxed(Set::new());
+    let mut rejected = 0u32;
+    for i in 0..(N as u32 + 4) {
+        let how = i % 4;
+        let r = fault::catch(|| {
+            let mm = m.get_mut();
+            match how {
+                0 => {
+                    mm.insert(mk(i), i);
+                }
+                1 => {
+                    let _ = mm.checked_insert(mk(i), i);
+                }
+                2 => {
+                    mm.entry(mk(i)).or_insert(i);
+                }
+                _ => {
+                    mm.insert_key_value(mk(i), i);
+                }
+            }
+        });
+        if r.panicked() {
+            rejected += 1;
+        }
+        let r2 = fault::catch(|| {
+            if how == 0 {
+                s.get_mut().extend([mk(i)]);
+            } else {
+                s.get_mut().insert(mk(i));
+            }
+        });
+        let _ = r2;
+        l.cx.rep.evaluations += 2;
+        if !m.canaries_ok() || !s.canaries_ok() {
+            v("canary", format!("Map<{},u32,{}> / Set under a never-equal ==: memory outside the container was written at insertion #{}", kname, N, i));
+            break;
+        }
+        let (ml, sl) = (m.get().len(), s.get().len());
+        if ml > N || sl > N || m.get().iter().count() != ml || s.get().iter().count() != sl {
+            v("malformed", format!("Map<{},u32,{}> / Set under a never-equal ==: after insertion #{} len() = {} / {} (capacity {}), iteration yields {} / {}", kname, N, i, ml, sl, N, m.get().iter().count(), s.get().iter().count()));
+            break;
+        }
+    }
+    let _ = rejected;
+    l.cx.rep.hit(&format!("overfill:{}", kname));
+    if ledger::viol_total() > 0 {
+        let d = format!("overfill probe Map<{},u32,{}>", kname, N);
+        l.cx.rep.absorb_violations("C17", &|| vec![d.clone()]);
+    }
+}
+
 pub fn stats(l: &mut Liar) {
     let (calls, lies) = adv_stats();
     l.cx.rep.num("adversarial_comparisons", calls);
